@@ -176,10 +176,11 @@ def lexS (o : VOpts) (st : TState) (u : Bytes) (pos : Nat) (es : List Event) (f0
     else if k == 0x5D then .res (feed st pos 1 Machine.popArray) pos u es f0
     else .res (.err pos .invalidChar) pos u es f0
 
-/-- `decoderState.ReadToken` without a cached peek, on the unread buffer `u`: leading blanks, end of input,
-an optional `:`/`,` and blanks (a read error there is outranked by an invalid delimiter:
-`checkDelimBeforeIOError`), `needDelim`, then the token. -/
-def scanToken (o : VOpts) (st : TState) (u : Bytes) (es : List Event) : SRes :=
+/-- The common head of ReadToken / ReadValue / PeekKind without a cached peek (decode.go:486-516, 695-725, 324-356),
+on the unread buffer `u`: leading blanks, end of input, an optional `:`/`,` and blanks (a read error there is
+outranked by an invalid delimiter: `checkDelimBeforeIOError`), `needDelim`; then `lex` handles what starts at the
+position found. -/
+def scanWith (st : TState) (lex : Bytes → Nat → List Event → Bool → SRes) (u : Bytes) (es : List Event) : SRes :=
   match sWhitespace u 0 es with
   | .fault u1 es1 => .fault u1 es1
   | .done (w, found) u1 es1 f1 =>
@@ -203,10 +204,32 @@ def scanToken (o : VOpts) (st : TState) (u : Bytes) (es : List Event) : SRes :=
               | [] => .res (.err (w + 1 + p) .bug) (w + 1 + p) (u1.take (w + 1) ++ v2) es2 (f1 || f2)
               | c1 :: _ =>
                 if st.m.needDelim (normKind c1) != c then .res (.err w .invalidChar) w (u1.take (w + 1) ++ v2) es2 (f1 || f2)
-                else lexS o st (u1.take (w + 1) ++ v2) (w + 1 + p) es2 (f1 || f2)
+                else lex (u1.take (w + 1) ++ v2) (w + 1 + p) es2 (f1 || f2)
         else
           if st.m.needDelim (normKind c) != 0 then .res (.err w .invalidChar) w u1 es1 f1
-          else lexS o st u1 w es1 f1
+          else lex u1 w es1 f1
+
+/-- `decoderState.ReadToken` without a cached peek -/
+def scanToken (o : VOpts) (st : TState) (u : Bytes) (es : List Event) : SRes :=
+  scanWith st (lexS o st) u es
+
+/-- the same head on a whole buffer `r` (the body of `TokenLoop.readToken` with the `switch next` abstracted) -/
+def wholeWith (st : TState) (lexW : Nat → Bytes → TRes) (r : Bytes) : TRes :=
+  let w := Wire.consumeWhitespace r
+  match r.drop w with
+  | [] => .err w (if st.m.depth == 1 then .ioEOF else .eof)
+  | c :: rest =>
+    if c == 0x3A || c == 0x2C then
+      let w2 := Wire.consumeWhitespace rest
+      match rest.drop w2 with
+      | [] =>
+        if st.m.needDelim 0x22 != c then .err w .invalidChar else .err (w + 1 + w2) .eof
+      | c1 :: rest1 =>
+        if st.m.needDelim (normKind c1) != c then .err w .invalidChar
+        else lexW (w + 1 + w2) (c1 :: rest1)
+    else
+      if st.m.needDelim (normKind c) != 0 then .err w .invalidChar
+      else lexW w (c :: rest)
 
 /-! ### the decoder -/
 
